@@ -51,7 +51,8 @@ def row_for(F, s):
         return ("U10", "reader", None)
     if f.endswith("RsdpV1Tag::checksum_is_valid") or f.endswith("RsdpV2Tag::checksum_is_valid"):
         return ("U12/U13", "rsdp", None)
-    if f.endswith("ElfSectionsTag::sections") or ("ElfSectionIter" in s.inst["key"] and f.endswith("Iterator>::next")) or f.endswith("ElfSection::get"):
+    if f.endswith("ElfSectionsTag::sections") or ("ElfSectionIter" in s.inst["key"] and f.endswith("Iterator>::next")) or f.endswith("ElfSection::get") or \
+            (s.inst.get("role_unit") and s.inst.get("impl_self_path") == "multiboot2::elf_sections::ElfSection"):
         return ("U14-U16", "import", "C19")
     if f.endswith("ElfSection::string_table") and k == "rawderef":
         return ("U17", "import", "C19")
